@@ -136,13 +136,29 @@ pub fn run(a: &Args) -> Batch {
         "\"ZZ Sombra\" = BUILDING-SHADE\n      BULB-TRA = \"Default.bulb\"\n      BULB-REF = \"Default.bulb\"\n      TRAN     =              0\n      REFL     =            0.7\n      X        = 100.000000\n      Y        = 100.000000\n      Z        = 0.000000\n      HEIGHT   = 2.000000\n      WIDTH    = 3.000000\n      TILT     = 90.000000\n      AZIMUTH  = 180.000000\n           ..\n"];
     let nvar = a.n;
     for i in 0..nvar {
-        let d = &shipped[(i / 4 + i) % shipped.len()];
+        let d = &shipped[(i / 5 + i) % shipped.len()];
         let name = d.file_name().unwrap().to_string_lossy().to_string();
         let dst = fresh(&mut k);
-        match i % 4 {
+        match i % 5 {
             0 => {
                 copy_dir(d, &dst, true);
                 dirs.push((format!("{} with the .ctehexml only", name), dst));
+            }
+            4 => {
+                // general data at their blank values: what the JSON leaves out must load back as what the
+                // conversion had (a project without a name)
+                copy_dir(d, &dst, false);
+                if let Some(cx) = ctehexml_in(&dst) {
+                    if let Ok(t) = std::fs::read_to_string(&cx) {
+                        if let (Some(a), Some(b)) = (t.find("<nomPro>"), t.find("</nomPro>")) {
+                            if a < b {
+                                let blank = *r.pick(&["", "   ", "\n"]);
+                                let _ = std::fs::write(&cx, format!("{}<nomPro>{}{}", &t[..a], blank, &t[b..]));
+                            }
+                        }
+                    }
+                }
+                dirs.push((format!("{} without a project name", name), dst));
             }
             1 | 2 => {
                 copy_dir(d, &dst, false);
